@@ -31,7 +31,8 @@ package ctreeprop
 //
 // Addressing. Which leaf a delete inspects first is decided by map iteration,
 // so handle operations select their leaf relative to what the parked operation
-// has seen so far: "seen" (k-th inspected leaf), "unseen" (a leaf under the
+// has seen so far: "seen" (k-th inspected leaf), "done" (k-th leaf whose
+// inspection is over: kept or already removed), "unseen" (a leaf under the
 // pattern not inspected yet) or "abs" (k-th retained handle).
 //
 // Oracles: the recorded history (intervals from one counter; an operation that
@@ -64,7 +65,7 @@ type CBOp struct {
 	Kind string   `json:"kind"` // add glv getleaf hupd hval query walk walksorted del delcond walkdel
 	Path []string `json:"path,omitempty"`
 	Odd  bool     `json:"odd,omitempty"` // add, hupd: parity of the unique value written (conditional deletes remove even values)
-	// hupd, hval: which retained handle (see the file comment); Idx is taken modulo the number of candidates
+	// hupd, hval: which retained handle: abs | seen | done | unseen (see the file comment); Idx is taken modulo the number of candidates
 	Sel string `json:"sel,omitempty"`
 	Idx int    `json:"idx,omitempty"`
 	// ParkAt: the callback invocations (1-based, condition and visitor calls counted together) at which the operation parks
@@ -327,7 +328,7 @@ func (r *cbRun) resolve(spec *CBOp) (burstHandle, string, bool) {
 		return burstHandle{}, "", false
 	}
 	pick := func(c []burstHandle) burstHandle { return c[((spec.Idx%len(c))+len(c))%len(c)] }
-	if cbj := r.lastCB; cbj != nil && (spec.Sel == "seen" || spec.Sel == "unseen") {
+	if cbj := r.lastCB; cbj != nil && (spec.Sel == "seen" || spec.Sel == "done" || spec.Sel == "unseen") {
 		r.mu.Lock()
 		seen := append([]string{}, cbj.seen...)
 		r.mu.Unlock()
@@ -338,7 +339,10 @@ func (r *cbRun) resolve(spec *CBOp) (burstHandle, string, bool) {
 			}
 		}
 		var c []burstHandle
-		if spec.Sel == "seen" {
+		if spec.Sel == "done" && len(seen) > 0 {
+			seen = seen[:len(seen)-1] // the last one is (or may still be) under inspection
+		}
+		if spec.Sel == "seen" || spec.Sel == "done" {
 			for _, k := range seen {
 				for _, h := range r.handles {
 					if key(h.path) == k {
@@ -808,7 +812,7 @@ func genCB(t *rapid.T) *CBScenario {
 	}
 	handleOp := func(t *rapid.T) CBOp {
 		o := CBOp{Kind: rapid.SampledFrom([]string{"hupd", "hupd", "hupd", "hupd", "hupd", "hval", "hval"}).Draw(t, "hkind")}
-		o.Sel = rapid.SampledFrom([]string{"seen", "seen", "seen", "seen", "unseen", "unseen", "unseen", "unseen", "abs"}).Draw(t, "sel")
+		o.Sel = rapid.SampledFrom([]string{"seen", "seen", "done", "done", "done", "unseen", "unseen", "unseen", "unseen", "abs"}).Draw(t, "sel")
 		o.Idx = rapid.IntRange(0, 3).Draw(t, "idx")
 		if o.Kind == "hupd" {
 			o.Odd = rapid.Bool().Draw(t, "odd")
